@@ -1,8 +1,89 @@
 (* C17 -- property theorems only: statement + exact + Print Assumptions. *)
 From Coq Require Import List ZArith Bool.
-From LJT Require Import model.Huff gen.GenParams model.CParams proofs.CParamsTj.
+From LJT Require Import model.Huff gen.GenParams model.CParams proofs.CParamsHoare proofs.CParamsTj
+  proofs.CParamsScript proofs.CParamsChain proofs.CParamsSetup proofs.CParamsBlock proofs.CParamsExamples.
 Import ListNotations.
 Local Open Scope Z_scope.
+
+(* sat m Q : every array access m records is inside the declared array, and a returned value satisfies Q *)
+
+(* (1a) initial_setup, for ALL parameter values: no index out of range; accepted => 1..10 components,
+   sampling factors 1..4, max factors 1..4, dimensions 1..65500, every derived size >= 1 *)
+Theorem C17_initial_setup_bounds : forall width height incomp nc prec lossless comps,
+  sat (initial_setup width height incomp nc prec lossless comps)
+      (fun u => setup_wf width height nc lossless comps u /\ 1 <= incomp /\ width * incomp < 2 ^ 32 /\
+                (if lossless then g_LOSSLESS_PREC_MIN <= prec <= g_LOSSLESS_PREC_MAX
+                 else prec = g_LOSSY_PREC_A \/ prec = g_LOSSY_PREC_B)).
+Proof. exact initial_setup_bounds_lemma. Qed.
+Print Assumptions C17_initial_setup_bounds.
+
+(* (1b) per_scan_setup after an accepted initial_setup: cur_comp_info / comp_info / MCU_membership indexes
+   in range, 1 <= blocks_in_MCU <= C_MAX_BLOCKS_IN_MCU, membership entries < comps_in_scan,
+   restart interval <= 65535 *)
+Theorem C17_per_scan_bounds : forall width height nc lossless comps u ncur cur ri rir,
+  setup_wf width height nc lossless comps u ->
+  1 <= ncur <= g_MAX_COMPS_IN_SCAN ->
+  (forall ci, 0 <= ci < ncur -> 0 <= getZ cur ci < nc) ->
+  sat (per_scan_setup width height lossless u ncur cur ri rir) (scaninfo_wf ncur ri rir).
+Proof. exact per_scan_bounds_lemma. Qed.
+Print Assumptions C17_per_scan_bounds.
+
+(* (2a) validate_script, for ALL component counts, precisions and scripts (lists of scans of any length):
+   component_index[] / component_sent[] / last_bitpos[][] accesses in range; accepted => at most
+   MAX_COMPONENTS components and every scan well formed (component indexes < num_components and strictly
+   increasing, 0 <= Ss <= Se <= 63, Ah/Al <= 13 (10 at 8 bits), lossless/sequential parameter rules) *)
+Theorem C17_validate_script_safe : forall nc prec scans,
+  sat (validate_script nc prec scans)
+      (fun mode => nc <= g_MAX_COMPONENTS /\ scans <> [] /\
+                   mode = script_mode (hd {| s_ncomps := 0; s_comps := []; s_Ss := 0; s_Se := 0; s_Ah := 0; s_Al := 0 |} scans) /\
+                   Forall (scan_wf nc mode prec) scans).
+Proof. exact validate_script_safe_lemma. Qed.
+Print Assumptions C17_validate_script_safe.
+
+(* (2b) accepted progressive scripts walk the successive-approximation chains: for every (component,
+   coefficient) the (Ah,Al) sequence of the scans that send it is (0,a0),(a0,a0-1),... (sa_chain (-1));
+   every AC scan of a component is preceded by a DC scan of it; every component's DC is sent *)
+Theorem C17_script_valid_chain : forall nc prec scans,
+  snd (validate_script nc prec scans) = inr Progressive ->
+  (forall c k, 0 <= c < nc -> 0 <= k < g_DCTSIZE2 -> sa_chain (-1) (hist scans c k)) /\
+  dc_before_ac (fun _ => false) scans /\
+  (forall c, 0 <= c < nc -> hist scans c 0 <> []).
+Proof. exact script_valid_chain_lemma. Qed.
+Print Assumptions C17_script_valid_chain.
+
+(* (3) staging buffer: for EVERY block (list of at most 64 coefficients that passes the range checks),
+   every pair of tables with code lengths <= 16 and every state of the bit buffer, one encode_one_block
+   writes at most BUFSIZE bytes, 0xFF stuffing included *)
+Theorem C17_block_fits_staging : forall prec dctbl actbl st last_dc coefs st',
+  0 <= prec <= g_LOSSY_PREC_B -> tbl_ok dctbl -> tbl_ok actbl -> bs_ok st ->
+  (length coefs <= Z.to_nat g_DCTSIZE2)%nat ->
+  encode_one_block prec dctbl actbl st last_dc coefs = inr st' ->
+  olen st' - olen st <= g_BUFSIZE.
+Proof. exact block_fits_staging_lemma. Qed.
+Print Assumptions C17_block_fits_staging.
+
+(* (4) jpeg_make_c_derived_tbl model: for EVERY bits[] / huffval[] content it rejects or returns 257-entry
+   tables whose used entries have length 1..16 and code < 2^length; no symbol above maxsymbol is stored *)
+Theorem C17_c_derived_total : forall bits vals maxsym,
+  0 <= maxsym <= 256 ->
+  match make_c_derived bits vals maxsym with
+  | None => True
+  | Some t => length (ehufco t) = 257%nat /\ length (ehufsi t) = 257%nat /\
+              (forall i, entry_ok (ehufco t) (ehufsi t) i) /\
+              (forall i, maxsym < Z.of_nat i -> nthZ (ehufsi t) i = 0) /\ tbl_ok t
+  end.
+Proof. exact c_derived_total_lemma. Qed.
+Print Assumptions C17_c_derived_total.
+
+(* (3)+(4): blocks encoded with tables the library derived fit the staging buffer *)
+Theorem C17_block_fits_staging_derived : forall prec dbits dvals abits avals dct act st last_dc coefs st',
+  0 <= prec <= g_LOSSY_PREC_B ->
+  make_c_derived dbits dvals 15 = Some dct -> make_c_derived abits avals 255 = Some act ->
+  bs_ok st -> (length coefs <= Z.to_nat g_DCTSIZE2)%nat ->
+  encode_one_block prec dct act st last_dc coefs = inr st' ->
+  olen st' - olen st <= g_BUFSIZE.
+Proof. exact block_fits_staging_derived. Qed.
+Print Assumptions C17_block_fits_staging_derived.
 
 (* (5) every value tj3Set accepts (generated switch table) lies in the range its consumers assume *)
 Theorem C17_tj_param_ranges : forall init param value,
@@ -10,3 +91,19 @@ Theorem C17_tj_param_ranges : forall init param value,
   match consumer_range param with Some (a, b) => a <= value <= b | None => False end.
 Proof. exact tj_param_ranges_lemma. Qed.
 Print Assumptions C17_tj_param_ranges.
+
+(* ---- non-vacuity ---- *)
+Example C17_ex_std_progression_accepted :
+  snd (validate_script 3 8 std_prog_ycc) = inr Progressive /\ snd (validate_script 1 8 std_prog_gray) = inr Progressive.
+Proof. exact (conj std_prog_ycc_accepted std_prog_gray_accepted). Qed.
+Example C17_ex_std_progression_hist :
+  hist std_prog_ycc 0 3 = [(0, 2); (2, 1); (1, 0)] /\ hist std_prog_ycc 2 0 = [(0, 1); (1, 0)].
+Proof. exact std_prog_ycc_hist. Qed.
+Example C17_ex_worst_block :
+  match encode_one_block 12 long_tbl long_tbl bitstate0 0 (32767 :: repeat 16383 63) with
+  | inr st => length (b_out st) = 416%nat | inl _ => False end.
+Proof. exact worst_block_bytes. Qed.
+Example C17_ex_restart_clamped :
+  exists u i, snd (initial_setup 8 8 1 1 8 false [{| c_h := 1; c_v := 1 |}]) = inr u /\
+              snd (per_scan_setup 8 8 false u 1 [0] 100000 0) = inr i /\ i_restart_interval i = 65535.
+Proof. exact restart_interval_clamped. Qed.
